@@ -29,6 +29,14 @@ Record he_entry := {
 Inductive he_idform := IdHashOfHexDecode | IdHashOfBytes.
 Record he_idrule := { idr_fn : string; idr_arg : string; idr_form : he_idform }.
 
+(* how a method of Client leaves the key / id fields after writing one of them *)
+Inductive he_pkwrite :=
+| PkThenRecompute   (* computePublicKeyBytes / SetPublicKey runs afterwards: id := Hash(decode PublicKey) *)
+| PkRollback        (* restores the value the field had on entry *)
+| PkDecode          (* a decoder fills the fields; ComputeProperties recomputes the id after decoding *)
+| PkStale.          (* the field is changed and the id is not recomputed from it *)
+Record he_pkrule := { pkw_fn : string; pkw_field : string; pkw_rhs : string; pkw_kind : he_pkwrite }.
+
 (* ---------- values and objects ---------- *)
 
 Inductive he_val :=
@@ -383,3 +391,35 @@ Definition he_ideal (Hash : string -> string) (mh : string -> string -> string)
   (forall a b, he_nocolon (mh a b) = true) /\
   (forall a b, ~ leaf (mh a b)) /\                    (* a transaction hash is never an inner node *)
   (forall a b, mh a b <> "").
+
+(* ---------- the key / id fields of a Client (chaincore/client/entity.go) ---------- *)
+(* decode = hex.DecodeString (None on error), Hash = encryption.Hash on bytes *)
+Record cl_state := { cl_pk : string; cl_bytes : string; cl_id : string }.
+
+Section Client.
+  Variable decode : string -> option string.
+  Variable Hash : string -> string.
+
+  (* the stored key is the hashed key *)
+  Definition cl_consistent (s : cl_state) : Prop :=
+    decode (cl_pk s) = Some (cl_bytes s) /\ cl_id s = Hash (cl_bytes s).
+
+  (* SetPublicKey / (PublicKey := k; ComputeProperties): a write followed by computePublicKeyBytes;
+     on a decode error SetPublicKey rolls the key back and nothing else has changed *)
+  Definition cl_set_public_key (s : cl_state) (k : string) : cl_state :=
+    match decode k with
+    | Some b => {| cl_pk := k; cl_bytes := b; cl_id := Hash b |}
+    | None => s
+    end.
+
+  (* the shape the translator flags as PkStale: the stored key is replaced by a normalised spelling
+     after the id was computed from the spelling passed in *)
+  Definition cl_set_public_key_stale (norm : string -> string) (s : cl_state) (k : string) : cl_state :=
+    match decode k with
+    | Some b => {| cl_pk := norm k; cl_bytes := b; cl_id := Hash b |}
+    | None => s
+    end.
+End Client.
+
+Definition he_pkrule_ok (r : he_pkrule) : bool :=
+  match pkw_kind r with PkStale => false | _ => true end.
